@@ -1,12 +1,15 @@
 package main
 
 import (
+	"context"
 	"encoding/json"
 	"fmt"
 	"os"
 	"path/filepath"
 	"sort"
 	"strings"
+
+	"go.lsp.dev/protocol"
 
 	"github.com/juev/hledger-lsp/internal/include"
 )
@@ -43,6 +46,17 @@ type c11Case struct {
 	MaxDepth int       `json:"max_depth"`
 	MaxSize  int       `json:"max_size"`
 	Ops      []c11Op   `json:"ops"`
+	// server level: the same kind of history through the server's notifications (the loader is the
+	// server's own); ops: change (buffer only), save (write the buffer + didSave), extwrite (write a
+	// file that is not open + didSave), rootload (re-analyse the root document)
+	Server bool      `json:"server,omitempty"`
+	SOps   []c11SOp  `json:"sops,omitempty"`
+	Open   []int     `json:"open,omitempty"`
+}
+type c11SOp struct {
+	Op   string   `json:"op"`
+	File *incFile `json:"file,omitempty"`
+	ID   int      `json:"id,omitempty"`
 }
 
 func incPath(dir string, id int, sub bool) string {
@@ -407,7 +421,61 @@ func runC10(o opts) error {
 }
 
 // ---- C11 ----
+func c11GenServer(r *rng, st *stats) c11Case {
+	// root 0 includes every other file by a plain relative include; the others include nothing
+	n := r.rangeInt(2, 4)
+	c := c11Case{MaxDepth: 50, MaxSize: 10 << 20, Server: true}
+	root := incFile{ID: 0, Version: 1}
+	for id := 1; id < n; id++ {
+		root.Dirs = append(root.Dirs, incDir{Form: "rel", Target: id})
+		c.Files = append(c.Files, incFile{ID: id, Version: 1})
+	}
+	c.Files = append([]incFile{root}, c.Files...)
+	c.Open = []int{0}
+	for id := 1; id < n; id++ {
+		if r.chance(70) {
+			c.Open = append(c.Open, id)
+		}
+	}
+	version := 1
+	isOpen := func(id int) bool {
+		for _, o := range c.Open {
+			if o == id {
+				return true
+			}
+		}
+		return false
+	}
+	for i, nops := 0, r.rangeInt(3, 8); i < nops; i++ {
+		id := r.rangeInt(1, n-1)
+		k := r.intn(100)
+		switch {
+		case k < 35:
+			c.SOps = append(c.SOps, c11SOp{Op: "rootload"})
+		case k < 60 && isOpen(id):
+			version++
+			c.SOps = append(c.SOps, c11SOp{Op: "change", File: &incFile{ID: id, Version: version}})
+		case k < 85 && isOpen(id):
+			c.SOps = append(c.SOps, c11SOp{Op: "save", ID: id})
+		default:
+			if !isOpen(id) {
+				version++
+				c.SOps = append(c.SOps, c11SOp{Op: "extwrite", File: &incFile{ID: id, Version: version}})
+			} else {
+				c.SOps = append(c.SOps, c11SOp{Op: "rootload"})
+			}
+		}
+	}
+	c.SOps = append(c.SOps, c11SOp{Op: "rootload"})
+	st.count("level:server")
+	return c
+}
+
 func c11Gen(r *rng, st *stats) c11Case {
+	if r.chance(25) {
+		return c11GenServer(r, st)
+	}
+	st.count("level:loader")
 	c := c11Case{Files: genIncFiles(r, st), MaxDepth: 50, MaxSize: pickW(r, []int{10 << 20, 500}, []int{85, 15})}
 	n := len(c.Files)
 	version := 1
@@ -454,7 +522,104 @@ func c11Gen(r *rng, st *stats) c11Case {
 	return c
 }
 
+// versions of the files of a resolved tree, by file id
+func (l incLayout) versions(res *include.ResolvedJournal) map[int]int {
+	out := map[int]int{}
+	if res == nil {
+		return out
+	}
+	for p, j := range res.Files {
+		v := 777777
+		if j != nil && len(j.Transactions) > 0 {
+			var fid, ver int
+			if _, err := fmt.Sscanf(j.Transactions[0].Description, "f%d v%d", &fid, &ver); err == nil {
+				v = ver
+			}
+		}
+		out[l.idOf(p)] = v
+	}
+	return out
+}
+
+func c11RunServer(c c11Case) (string, error) {
+	l, err := newLayout(c.Files)
+	if err != nil {
+		return "", err
+	}
+	defer os.RemoveAll(l.dir)
+	files := map[int]incFile{}
+	for _, f := range c.Files {
+		files[f.ID] = f
+		if err := l.write(f); err != nil {
+			return "", err
+		}
+	}
+	srv, _, base := newServerAt(l.dir, nil)
+	ctx := context.Background()
+	buffers := map[int]incFile{}
+	uri := func(id int) protocol.DocumentURI { return fileURI(l.path(id)) }
+	for _, id := range c.Open {
+		buffers[id] = files[id]
+		_ = srv.DidOpen(ctx, &protocol.DidOpenTextDocumentParams{TextDocument: protocol.TextDocumentItem{URI: uri(id), Text: l.content(files[id])}})
+		quiesce(base)
+	}
+	version := int32(1)
+	change := func(id int, f incFile) {
+		version++
+		_ = srv.DidChange(ctx, &protocol.DidChangeTextDocumentParams{
+			TextDocument:   protocol.VersionedTextDocumentIdentifier{TextDocumentIdentifier: protocol.TextDocumentIdentifier{URI: uri(id)}, Version: version},
+			ContentChanges: []protocol.TextDocumentContentChangeEvent{{Text: l.content(f)}}})
+		quiesce(base)
+	}
+	var triples []string
+	for _, op := range c.SOps {
+		switch op.Op {
+		case "change":
+			f := *op.File
+			f.Sub = files[f.ID].Sub
+			buffers[f.ID] = f
+			change(f.ID, f)
+		case "save":
+			f := buffers[op.ID]
+			files[op.ID] = f
+			if err := l.write(f); err != nil {
+				return "", err
+			}
+			_ = srv.DidSave(ctx, &protocol.DidSaveTextDocumentParams{TextDocument: protocol.TextDocumentIdentifier{URI: uri(op.ID)}})
+		case "extwrite":
+			f := *op.File
+			f.Sub = files[f.ID].Sub
+			files[f.ID] = f
+			if err := l.write(f); err != nil {
+				return "", err
+			}
+			_ = srv.DidSave(ctx, &protocol.DidSaveTextDocumentParams{TextDocument: protocol.TextDocumentIdentifier{URI: uri(f.ID)}})
+		case "rootload":
+			change(0, buffers[0])
+			shared := l.versions(srv.GetResolved(uri(0)))
+			fres, _ := loaderFor(c.MaxDepth, c.MaxSize).LoadFromContent(l.path(0), l.content(buffers[0]))
+			fresh := l.versions(fres)
+			var ids []int
+			for id := range fresh {
+				ids = append(ids, id)
+			}
+			sort.Ints(ids)
+			for _, id := range ids {
+				sv, ok := shared[id]
+				if !ok {
+					sv = 888888 // the server's tree lacks the file
+				}
+				triples = append(triples, fmt.Sprintf("(%d, %d, %d)", id, sv, fresh[id]))
+			}
+		}
+	}
+	return fmt.Sprintf("(mkCase11 [] (mkLim %d %d) [] %s)", c.MaxSize, c.MaxDepth, gList(triples)), nil
+}
+
 func c11Run(c c11Case) (string, error) {
+	if c.Server {
+		return c11RunServer(c)
+	}
 	l, err := newLayout(c.Files)
 	if err != nil {
 		return "", err
@@ -505,11 +670,11 @@ func c11Run(c c11Case) (string, error) {
 			steps = append(steps, "(mkStep OClear None None)")
 		}
 	}
-	return fmt.Sprintf("(mkCase11 %s (mkLim %d %d) %s)", fs0, c.MaxSize, c.MaxDepth, gList(steps)), nil
+	return fmt.Sprintf("(mkCase11 %s (mkLim %d %d) %s [])", fs0, c.MaxSize, c.MaxDepth, gList(steps)), nil
 }
 
 func runC11(o opts) error {
-	st := newStats("C11", o.seed, "case = 2..7 operations (load root_i via Load / LoadFromContent, rewrite or delete a file + InvalidateFile, ClearCache) on one shared loader over a directory of 1..5 files; after every load a fresh loader is run on the same files; non-trivial = at least two loads with a write or clear between or a repeated load; distinct by hash")
+	st := newStats("C11", o.seed, "case = (75%) 2..7 operations (load root_i via Load / LoadFromContent, rewrite or delete a file + InvalidateFile, ClearCache) on one shared loader over a directory of 1..5 files; after every load a fresh loader is run on the same files; (25%) the same kind of history at server level: a root document that includes 1..3 files, some of them open, 3..9 notifications (didChange of an include, didSave of an open include after writing its buffer, didSave of a rewritten file that is not open, re-analysis of the root), the root's resolved tree compared file by file with a fresh loader after every re-analysis; non-trivial = at least two loads with a write or clear between or a repeated load; distinct by hash")
 	return runGeneric(o, st, "case11", func(raw json.RawMessage) (string, bool, string, error) {
 		var c c11Case
 		if err := json.Unmarshal(raw, &c); err != nil {
@@ -527,6 +692,6 @@ func runC11(o opts) error {
 			}
 		}
 		t, err := c11Run(c)
-		return c, t, loads >= 2, err
+		return c, t, loads >= 2 || c.Server, err
 	})
 }
